@@ -153,7 +153,8 @@ def worker_main(argv):
     st = Stats()
     res = {"runs": 0, "violations": [], "known_hits": {}, "samples": [], "harness_errors": [],
            "timeouts": 0, "log_digests": {}}
-    maxviol = 3
+    maxviol = int(os.environ.get("VERIF_MAXVIOL", "3"))
+    noshrink = bool(os.environ.get("VERIF_NOSHRINK"))
     seen_fp = set()
     t0 = time.time()
     for i in idxs:
@@ -210,7 +211,10 @@ def worker_main(argv):
         seen_fp.add(fpk)
         core.watchdog(600)
         try:
-            small, v2, used = ddmin_ops(prop, scn, v, SHRINK_BUDGET)
+            if noshrink:
+                small, v2, used = scn, v, 0
+            else:
+                small, v2, used = ddmin_ops(prop, scn, v, SHRINK_BUDGET)
         except (HarnessTimeout, BudgetExceeded):
             small, v2, used = scn, v, -1
         core.watchdog_off()
